@@ -13,7 +13,7 @@ Extraction "../ocaml/xdmodel_core.ml"
   strip_ansi rm_prefix rm_blankline rm_trailing_ws drop_cr_lines collapse_ws delete_ws
   norm_repr normalize check_match check_output strip_exception_details extract_exc_want_cb
   check_exception_cb check_got_vs_want default_flags strict_flags is_uU is_bB
-  expandtabs min_indentation normalize_docstring label_lines group_lines parse oracles_of_tables is_balanced o_bal
+  expandtabs min_indentation normalize_docstring label_lines group_lines parse parse_repl oracles_of_tables is_balanced o_bal
   locate_ps1 package_chunk
   dedent codeblock extract_exc_want check_exception indent_text
   rs_init rs_update rs_get rs_skips flags_of set_report_style DEFAULT_RUNTIME_STATE
